@@ -13,6 +13,7 @@ import Driver.PolyFam
 import Driver.SymFam
 import Driver.IfaceFam
 import Driver.DictFam
+import Driver.ExcFam
 
 open Driver
 
@@ -41,6 +42,7 @@ def stepLine (st : St) (line : String) : St × String :=
   | "sym" :: _ => (st, SymFam.step (line.drop 4).toString)
   | "iface" :: _ => (st, IfaceFam.step (line.drop 6).toString)
   | "dict" :: _ => (st, DictFam.step (line.drop 5).toString)
+  | "exc" :: _ => (st, ExcFam.step (line.drop 4).toString)
   | _ => (st, "bad-family")
 
 partial def loop (h : IO.FS.Stream) (out : IO.FS.Stream) (st : St) : IO Unit := do
